@@ -3,9 +3,10 @@
    Statements only; proofs in Proofs.IsoBitsProofs.  The claim is about chython/algorithms/_isomorphism.pyx AS SOURCE
    (run through a transpiler by the check; the compiled extension cannot be built here). *)
 From Coq Require Import ZArith List Bool.
-From Model Require Import PyBase PeriodicTable IsoBits.
+From Model Require Import PyBase PeriodicTable IsoBits IsoBitsExt.
+From Model Require Iso.
 From Gen Require Import Elements.
-From Proofs Require Import IsoBitsProofs IsoBitsSearchProofs.
+From Proofs Require Import IsoBitsProofs IsoBitsSearchProofs IsoBitsExtProofs.
 Import ListNotations.
 Open Scope Z_scope.
 
@@ -119,6 +120,62 @@ Theorem C09_get_mapping_example :
   option_map (map (mask_mapping (enc_query rq) (enc_mol rm))) (mask_search (enc_query rq) (enc_mol rm) [true; true] 10) = Some [[(1, 2)]].
 Proof. exact get_mapping_example. Qed.
 Print Assumptions C09_get_mapping_example.
+
+(* THE TWO PUBLIC CALLS.  public_get_mapping = guard + Isomorphism._get_mapping (query components x connected components of
+   the target in the order given, searching scope, lazy_product and merge of Model.Iso, automorphism filter) + the stereo
+   post-filter as an arbitrary predicate.  query.get_mapping(other, ...) yields the same sequence of dictionaries with
+   _cython=True and _cython=False: any number of components on both sides, any scope or none, filter on or off. *)
+Theorem C09_public_get_mapping_equiv : forall stereo_ok comps rm tcomps flt scope fuel,
+  Forall (fun rq => rq <> [] /\ wf_query rq /\ in_range_pair rq rm) comps ->
+  (has_unknown_h rm = false -> wf_mol rm) ->
+  public_get_mapping stereo_ok true comps rm tcomps flt scope fuel =
+  public_get_mapping stereo_ok false comps rm tcomps flt scope fuel.
+Proof. exact public_get_mapping_equiv. Qed.
+Print Assumptions C09_public_get_mapping_equiv.
+
+Theorem C09_public_get_mapping_equiv_b : forall stereo_ok comps rm tcomps flt scope fuel,
+  public_hyps_ok comps rm = true ->
+  public_get_mapping stereo_ok true comps rm tcomps flt scope fuel =
+  public_get_mapping stereo_ok false comps rm tcomps flt scope fuel.
+Proof. exact public_get_mapping_equiv_b. Qed.
+Print Assumptions C09_public_get_mapping_equiv_b.
+
+(* non-vacuity: query C.O on CO.C *)
+Theorem C09_public_get_mapping_example :
+  public_hyps_ok ex2_comps ex2_rm = true /\
+  public_get_mapping (fun _ => true) true ex2_comps ex2_rm [[1; 2]; [3]] true None 100 = [[(1, 3); (2, 2)]] /\
+  public_get_mapping (fun _ => true) false ex2_comps ex2_rm [[1; 2]; [3]] true None 100 = [[(1, 3); (2, 2)]] /\
+  public_get_mapping (fun _ => true) true ex2_comps ex2_rm [[1; 2]; [3]] true (Some [1; 2]) 100 = [].
+Proof. exact public_get_mapping_example. Qed.
+Print Assumptions C09_public_get_mapping_example.
+
+(* THE STACK.  mask_occupancy = the largest number of entries the stack of the .pyx loop ever holds (cells of stack_index /
+   stack_depth needed).  For ANY buffers, scope and fuel it is at most atoms_count + (query atoms - 1) * largest neighbour
+   list: this allocation repairs the finding stack-overflow. *)
+Theorem C09_stack_bound_sufficient : forall qu mo scope fuel,
+  (mask_occupancy qu mo scope fuel <= alloc_sufficient qu mo)%nat.
+Proof. exact stack_bound_sufficient. Qed.
+Print Assumptions C09_stack_bound_sufficient.
+
+(* the one-line repair `stack_size = molecule.atoms_count * query.atoms_count`: enough for the buffers of every well-formed molecule *)
+Theorem C09_stack_bound_simple : forall rq rm scope fuel, rq <> [] -> wf_mol rm ->
+  (mask_occupancy (enc_query rq) (enc_mol rm) scope fuel <= alloc_simple (enc_query rq) (enc_mol rm))%nat.
+Proof. exact stack_bound_simple. Qed.
+Print Assumptions C09_stack_bound_simple.
+
+(* what the .pyx allocates (2 * atoms_count) is exceeded inside all hypotheses of the equivalence theorems (known finding) *)
+Theorem C09_stack_bound_2n_refuted :
+  hyps_ok k5_rq k5_rm = true /\ occ_of k5_rq k5_rm = 11%nat /\ alloc_pyx (enc_mol k5_rm) = 10%nat /\
+  hyps_ok sf6_rq sf6_rm = true /\ occ_of sf6_rq sf6_rm = 16%nat /\ alloc_pyx (enc_mol sf6_rm) = 14%nat.
+Proof. exact stack_bound_2n_refuted. Qed.
+Print Assumptions C09_stack_bound_2n_refuted.
+
+(* atoms_count + number of bond records (the repair suggested first) is not enough either *)
+Theorem C09_stack_bound_atoms_plus_bonds_refuted :
+  hyps_ok star_rq sf6s_rm = true /\ occ_of star_rq sf6s_rm = 22%nat /\ alloc_atoms_plus_bonds (enc_mol sf6s_rm) = 19%nat /\
+  alloc_sufficient (enc_query star_rq) (enc_mol sf6s_rm) = 43%nat.
+Proof. exact stack_bound_atoms_plus_bonds_refuted. Qed.
+Print Assumptions C09_stack_bound_atoms_plus_bonds_refuted.
 
 (* the witnesses of the former findings (fixed in the code): AnyMetal vs Rn, query hydrogens (0, 5) vs [C-4], query isotopes
    21 and 30 vs plain carbon lie INSIDE the hypotheses now, and both sides reject them *)
